@@ -65,6 +65,13 @@ def random_opts(rng, spec):
                                       "unique_inconsistent", "all"])
     if rng.random() < 0.2:
         o["model_strategy"] = rng.choice(["reliable", "sensitive_pacbio", "sensitive_ont", "all", "fl_pacbio"])
+    if rng.random() < 0.3:
+        # further documented algorithm settings (they change what is computed, never what the properties demand)
+        o["extra"] = rng.choice([["--fl_data"], ["--stranded", "forward"], ["--stranded", "reverse"],
+                                 ["--matching_strategy", "exact"], ["--matching_strategy", "loose"],
+                                 ["--splice_correction_strategy", "none"], ["--splice_correction_strategy", "all"],
+                                 ["--report_novel_unspliced", "true"], ["--delta", "3"], ["--no_secondary"],
+                                 ["--polya_requirement", "never"], ["--polya_requirement", "always"]])
     return o
 
 
